@@ -720,7 +720,14 @@ func RuleG6(c *Ctx) {
 					for v := range vals {
 						for _, r := range core.Refs(v) {
 							switch x := r.(type) {
-							case *ssa.TypeAssert, *ssa.ChangeInterface, *ssa.MakeInterface, *ssa.Phi:
+							case *ssa.TypeAssert, *ssa.ChangeInterface, *ssa.MakeInterface, *ssa.Phi, *ssa.FieldAddr, *ssa.IndexAddr:
+								// pointers into the pooled object are the pooled object
+								if fa, isFA := x.(*ssa.FieldAddr); isFA && fa.X != v {
+									continue
+								}
+								if ia, isIA := x.(*ssa.IndexAddr); isIA && ia.X != v {
+									continue
+								}
 								if !vals[x.(ssa.Value)] {
 									vals[x.(ssa.Value)] = true
 									changed = true
@@ -730,11 +737,29 @@ func RuleG6(c *Ctx) {
 									vals[x] = true
 									changed = true
 								}
+							case *ssa.Store:
+								// spilled into a local cell (named/defer-spilled results, temporaries): its loads carry the value
+								if a, isAl := x.Addr.(*ssa.Alloc); isAl && x.Val == v {
+									for _, rr := range core.Refs(a) {
+										if u, isLoad := rr.(*ssa.UnOp); isLoad && u.Op == token.MUL && !vals[u] {
+											vals[u] = true
+											changed = true
+										}
+									}
+								}
 							case *ssa.Call:
-								// methods of *big.Int returning their receiver alias the pooled value
-								if f := core.Callee(x.Common()); f != nil && strings.HasPrefix(f.String(), "(*math/big.Int).") && len(x.Call.Args) > 0 && vals[x.Call.Args[0]] {
-									if _, isPtr := x.Type().Underlying().(*types.Pointer); isPtr && !bigObservers[f.Name()] {
-										if !vals[x] {
+								// methods returning their receiver (big.Int, field elements) alias the pooled value
+								if f := core.Callee(x.Common()); f != nil && len(x.Call.Args) > 0 && vals[x.Call.Args[0]] {
+									if _, isPtr := x.Type().Underlying().(*types.Pointer); isPtr {
+										aliases := false
+										if strings.HasPrefix(f.String(), "(*math/big.Int).") && !bigObservers[f.Name()] {
+											aliases = true
+										} else if sm := trustSummary(c.P, f); sm != nil && sm.Ret[0] {
+											aliases = true
+										} else if st := c.wfxGet(); st.sums[f] != nil && st.sums[f].Ret[0] {
+											aliases = true
+										}
+										if aliases && !vals[x] {
 											vals[x] = true
 											changed = true
 										}
